@@ -173,7 +173,9 @@ StringDictionaryRPFC::StringDictionaryRPFC(IteratorDictString *it,
     for (bucket = 1; bucket <= buckets; bucket++) {
       // Checking the available space in textStrings and
       // realloc if required
-      while ((bytesStrings + (bucketsize * 1000)) > reservedStrings)
+      while ((bytesStrings + maxlength +
+              4 * (beginnings[bucket] - beginnings[bucket - 1]) + 8) >
+             reservedStrings)
         reservedStrings = Reallocate(&textStrings, reservedStrings);
 
       bytes = 0;
